@@ -4582,7 +4582,9 @@ fn external_id(id: &parser::ExternalId) -> (String, Option<String>) {
 }
 
 /// Replaces `count` characters at `offset` by `new` (both clipped to the length of `value`).
-/// Nothing is deleted when `new` is refused.
+/// The resulting string is validated, not the fragment: a sequence that must not occur
+/// in the node ("]]>", "--", a trailing "-") can arise from the combination of the old and
+/// the new text, or from a deletion.  Nothing is changed when the result is refused.
 fn replace_char_range<F>(
     value: &str,
     offset: usize,
@@ -4593,12 +4595,8 @@ fn replace_char_range<F>(
 where
     F: Fn(&str) -> error::Result<bool>,
 {
-    if !check(new)? {
-        return Err(error::Error::InvalidData(new.to_string()));
-    }
-
     let deleted = delete_char_range(value, offset, count);
-    insert_char_at(deleted.as_str(), offset, new, |_| Ok(true))
+    insert_char_at(deleted.as_str(), offset, new, check)
 }
 
 fn insert_char_at<F>(value: &str, offset: usize, new: &str, check: F) -> error::Result<String>
@@ -4613,14 +4611,16 @@ where
         chars.len()
     };
 
-    if check(new)? {
-        let mut tail = chars.split_off(index);
-        let mut middle = new.chars().collect::<Vec<char>>();
+    let mut tail = chars.split_off(index);
+    let mut middle = new.chars().collect::<Vec<char>>();
 
-        chars.append(&mut middle);
-        chars.append(&mut tail);
+    chars.append(&mut middle);
+    chars.append(&mut tail);
 
-        Ok(chars.iter().collect())
+    let result = chars.iter().collect::<String>();
+
+    if check(result.as_str())? {
+        Ok(result)
     } else {
         Err(error::Error::InvalidData(new.to_string()))
     }
